@@ -70,13 +70,16 @@ def check(root, prop, tier, seed):
 def main():
     ap = argparse.ArgumentParser()
     ap.add_argument("--only", default=None)
+    ap.add_argument("--own", default=None, help="comma list of properties: the changes written for them")
     ap.add_argument("--props", default=None, help="comma list, 'all', or default: the property named in meta.json")
     ap.add_argument("--tier", default="quick")
     ap.add_argument("--seed", type=int, default=0)
     ap.add_argument("--update-meta", action="store_true")
     ap.add_argument("--skip-confirm", action="store_true")
     a = ap.parse_args()
-    dirs = sorted(glob.glob(os.path.join(HERE, "seeded", "*")))
+    dirs = [d for d in sorted(glob.glob(os.path.join(HERE, "seeded", "*"))) if os.path.isdir(d)]
+    if a.own:
+        dirs = [d for d in dirs if os.path.basename(d).split("-")[0] in a.own.split(",")]
     if a.only:
         want = set(a.only.split(","))
         dirs = [d for d in dirs if os.path.basename(d) in want]
